@@ -2,7 +2,6 @@ package grpcserver
 
 import (
 	"context"
-	"fmt"
 	"math/big"
 	"strconv"
 
@@ -93,8 +92,8 @@ func (svr *TrustVectorServer) Update(
 		entries := make([]sparse.Entry, 0, len(request.Entries))
 		for _, entry := range request.Entries {
 			if i, err1 = strconv.Atoi(entry.Trustee); err1 != nil {
-				return fmt.Errorf("invalid truster %#v: %w",
-					entry.Trustee, err1)
+				return status.Errorf(codes.InvalidArgument,
+					"invalid trustee %#v: %v", entry.Trustee, err1)
 			}
 			if i < 0 {
 				return status.Errorf(codes.InvalidArgument,
